@@ -269,7 +269,7 @@ def run_one(ctl: explorer.Ctl, cfg: Dict[str, Any]) -> Dict[str, Any]:
     if status != "ok":
         obs["outcome"] = status
         viol.append({"sig": {"class": "did-not-finish", "status": status},
-                     "msg": f"send_message did not complete: {status} {val!r}"})
+                     "msg": f"send_message did not complete: {status} {core.clean_repr(val)}"})
         obs["violations"] = viol
         return obs
     (okind, oval), elapsed = val
